@@ -50,6 +50,19 @@ type c05Case struct {
 	Ops        []c05Op  `json:"ops"`
 }
 
+// c05OtherSpelling gives the other way of writing a namespace name that Manager.Socket normalises to the same namespace.
+func c05OtherSpelling(name string) string {
+	switch {
+	case name == "":
+		return "/"
+	case name == "/":
+		return ""
+	case name[0] == '/':
+		return name[1:]
+	}
+	return "/" + name
+}
+
 func evalC05(c c05Case) (f *Failure, nontrivial bool) {
 	class := fmt.Sprintf("%s,nsps=%d", c.Transport, len(c.Namespaces))
 	fail := func(clause, detail string) *Failure {
@@ -230,6 +243,7 @@ func evalC05(c c05Case) (f *Failure, nontrivial bool) {
 		disconnected := map[key]bool{}
 		rejoined := false
 		volatileOffline := false
+		aliased := false
 		seq := 0
 		expect := map[string]int{} // token@receiver -> expected count
 		for _, op := range c.Ops {
@@ -300,6 +314,42 @@ func evalC05(c c05Case) (f *Failure, nontrivial bool) {
 						expect[btok+fmt.Sprintf("@cli%d", kk.mgr)] = 1
 					}
 				}
+			case "bounce":
+				// the namespace is left and joined again at once, on the same connection; then it is used
+				if op.Mgr != 0 || len(c.Namespaces) < 2 {
+					seq--
+					continue
+				}
+				settle(10 * time.Millisecond)
+				mu.Lock()
+				before := cs.connects
+				mu.Unlock()
+				cs.s.Disconnect()
+				cs.s.Connect()
+				settle(2 * time.Second)
+				mu.Lock()
+				after := cs.connects
+				ss = srvSock[k]
+				mu.Unlock()
+				if after != before+1 || !cs.s.Connected() || ss == nil || !ss.Connected() {
+					set(fail("rejoin-after-leaving", fmt.Sprintf("namespace %q on connection %d was left and joined again at once: connect fired %d times, Connected()=%v, server socket connected %v; client-side events %v",
+						k.nsp, k.mgr, after-before, cs.s.Connected(), ss != nil && ss.Connected(), diag)))
+					return
+				}
+				cs.s.Emit("ev", tok)
+				expect[tok+"@srv"] = 1
+				rejoined = true
+			case "alias":
+				// the same namespace under its other spelling ("chat" for "/chat", "" for "/"): the manager knows one socket per namespace,
+				// so what is emitted through this one travels in the namespace, and what the server sends still reaches the handlers
+				alt := []*sio.Manager{m0, m1}[op.Mgr].Socket(c05OtherSpelling(c.Namespaces[op.Nsp]), nil)
+				alt.Emit("ev", tok)
+				expect[tok+"@srv"] = 1
+				seq++
+				tok2 := fmt.Sprintf("%s|%d|%d", norm, op.Mgr, seq)
+				ss.Emit("ev", tok2)
+				expect[tok2+fmt.Sprintf("@cli%d", op.Mgr)] = 1
+				aliased = true
 			case "disconnect":
 				settle(10 * time.Millisecond) // traffic in flight on this namespace is delivered first: a disconnect legitimately drops what follows it
 				cs.s.Disconnect()
@@ -311,7 +361,7 @@ func evalC05(c c05Case) (f *Failure, nontrivial bool) {
 				settle(10 * time.Millisecond)
 			}
 		}
-		nontrivial = nontrivial || rejoined || volatileOffline
+		nontrivial = nontrivial || rejoined || volatileOffline || aliased
 		settle(2 * time.Second)
 		// after disconnecting some namespaces every other namespace of those connections still completes an ack round trip
 		final := map[key]bool{}
@@ -409,7 +459,7 @@ func genC05Case(t *rapid.T) c05Case {
 		}
 	}
 	for i, k := 0, rapid.IntRange(2, 20).Draw(t, "ops"); i < k; i++ {
-		op := c05Op{Op: rapid.SampledFrom([]string{"c2s", "s2c", "ack", "nspbc", "roombc", "c2s", "s2c", "disconnect", "reconnect", "volatile-offline"}).Draw(t, "op"), Nsp: rapid.IntRange(0, n-1).Draw(t, "nsp"),
+		op := c05Op{Op: rapid.SampledFrom([]string{"c2s", "s2c", "ack", "nspbc", "roombc", "c2s", "s2c", "disconnect", "reconnect", "volatile-offline", "alias", "bounce"}).Draw(t, "op"), Nsp: rapid.IntRange(0, n-1).Draw(t, "nsp"),
 			Mgr: rapid.IntRange(0, 1).Draw(t, "mgr")}
 		c.Ops = append(c.Ops, op)
 	}
